@@ -295,6 +295,25 @@ CLAIMS["C01"] = dict(
               "in-memory HDF5 model + z3 (LIA), provenance tokens",
     ref="3/C01")
 
+CLAIMS["C02"] = dict(
+    text="The real yield_filtered_array_stacks (array-like and event-wise "
+         "routes), store_filtered_feature, the feature loop / length check / "
+         "fast-path predicate of Export.hdf5 and the selection of Export.tsv "
+         "run on top of the real RTDCWriter over the in-memory h5py "
+         "stand-in. Event payloads are tokens src[i] with SYMBOLIC, strictly "
+         "increasing selection indices i (k selected events straddling the "
+         "export chunk size), so z3 proves 'stored sequence == source events "
+         "at the selected indices, in order' as equalities of index terms; "
+         "the dataset-level loop is run for every filter over 4 events, "
+         "filtered or not, for hdf5/dict/hierarchy/tdms-like sources, with "
+         "duplicate feature names and one shorter feature.",
+    note="Trusted: z3, symx, h5py stand-in, source/dataset stubs (an "
+         "'event-wise' source stands for tdms/DCOR). np.savetxt formatting, "
+         "fcs/avi export and real tdms readers are outside.",
+    technique="symbolic execution of the real Python code objects + z3 (LIA) "
+              "over symbolic selection indices, provenance tokens",
+    ref="3/C02")
+
 NOT_APPLICABLE = {
 }
 
